@@ -86,8 +86,9 @@ class Wavefront:
 
                 # Reference sphere center and radius
                 xc, yc, zc, R = self._get_reference_sphere(pupil_z)
-                opd_ref = self._get_path_length(xc, yc, zc, R)
-                opd_ref = self._correct_tilt(field, opd_ref, x=0, y=0)
+                opd_ref = self._get_path_length(xc, yc, zc, R, wavelength)
+                opd_ref = self._correct_tilt(field, opd_ref, x=0, y=0,
+                                             wavelength=wavelength)
 
                 field_data.append(self._generate_field_data(field, wavelength,
                                                             opd_ref,
@@ -116,8 +117,8 @@ class Wavefront:
         # trace distribution through pupil
         self.optic.trace(*field, wavelength, None, self.distribution)
         intensity = self.optic.surface_group.intensity[-1, :]
-        opd = self._get_path_length(xc, yc, zc, R)
-        opd = self._correct_tilt(field, opd)
+        opd = self._get_path_length(xc, yc, zc, R, wavelength)
+        opd = self._correct_tilt(field, opd, wavelength=wavelength)
         return (opd_ref - opd) / (wavelength * 1e-3), intensity
 
     def _trace_chief_ray(self, field, wavelength):
@@ -159,7 +160,7 @@ class Wavefront:
 
         return xc, yc, zc, R
 
-    def _get_path_length(self, xc, yc, zc, r):
+    def _get_path_length(self, xc, yc, zc, r, wavelength=None):
         """
         Calculates the optical path difference.
 
@@ -168,14 +169,22 @@ class Wavefront:
             yc (float): The y-coordinate of the reference sphere center.
             zc (float): The z-coordinate of the reference sphere center.
             r (float): The radius of the reference sphere.
+            wavelength (float, optional): The wavelength, used for the index
+                of the image-space medium. Defaults to None (index 1).
 
         Returns:
             float: The optical path difference.
         """
         opd = self.optic.surface_group.opd[-1, :]
-        return opd - self._opd_image_to_xp(xc, yc, zc, r)
+        # the segment image -> reference sphere lies in the image-space medium
+        if wavelength is None:
+            n_image = 1.0
+        else:
+            material = self.optic.image_surface.material_pre
+            n_image = np.abs(material.n(wavelength))
+        return opd - n_image * self._opd_image_to_xp(xc, yc, zc, r)
 
-    def _correct_tilt(self, field, opd, x=None, y=None):
+    def _correct_tilt(self, field, opd, x=None, y=None, wavelength=None):
         """
         Corrects for tilt in the optical path difference.
 
@@ -184,6 +193,8 @@ class Wavefront:
             opd (float): The optical path difference.
             x (float, optional): The x-coordinate. Defaults to None.
             y (float, optional): The y-coordinate. Defaults to None.
+            wavelength (float, optional): The wavelength, used for the index
+                of the object-space medium. Defaults to None (index 1).
 
         Returns:
             float: The corrected optical path difference.
@@ -191,15 +202,24 @@ class Wavefront:
         tilt_correction = 0
         if self.optic.field_type == 'angle':
             Hx, Hy = field
-            x_tilt = self.optic.fields.max_x_field * Hx
-            y_tilt = self.optic.fields.max_y_field * Hy
+            # same field angles as the ray generator (radial maximum field)
+            x_tilt = self.optic.fields.max_field * Hx
+            y_tilt = self.optic.fields.max_field * Hy
+            # the rays were launched from the distribution's points scaled by
+            # the vignetting factors twice (Optic.trace and the ray generator)
+            vx, vy = self.optic.fields.get_vig_factor(Hx, Hy)
             if x is None:
-                x = self.distribution.x
+                x = self.distribution.x * (1 - vx)**2
             if y is None:
-                y = self.distribution.y
+                y = self.distribution.y * (1 - vy)**2
             EPD = self.optic.paraxial.EPD()
             tilt_correction = ((1 - x) * np.sin(np.radians(x_tilt)) * EPD / 2 +
                                (1 - y) * np.sin(np.radians(y_tilt)) * EPD / 2)
+            # the offset between the launch points lies in the object medium
+            if wavelength is not None:
+                material = self.optic.object_surface.material_post
+                tilt_correction = tilt_correction * np.abs(
+                    material.n(wavelength))
         return opd - tilt_correction
 
     def _opd_image_to_xp(self, xc, yc, zc, R):
